@@ -516,6 +516,9 @@ class ObjectBase(EntityContainer):
         self.workspace.remove_children(self, children)
 
         for child in children:
+            if child not in self._children:  # e.g. a group emptied by a previous removal
+                continue
+
             if isinstance(child, PropertyGroup) and self._property_groups:
                 self.remove_property_group(child)
             elif isinstance(child, Data):
